@@ -43,9 +43,24 @@ def with_galg(ex, case):
     ex.galg_scalars = True
     ex.galg_coord_axioms = bool(case is not None and case.opts.get('coord_axioms'))
     ex.galg_scalar_eq_axioms = bool(case is not None and case.opts.get('scalar_eq_axioms'))
+    ex.galg_formal_coeffs = bool(case is not None and case.opts.get('formal_coeffs'))
     if galg.refine_model not in ex.model_refiners:
         ex.model_refiners.append(galg.refine_model)
     stubs_hash.install(ex)
     stubs_big.install(ex)
     stubs_chacha.install(ex)
     stubs_galg.install(ex)
+
+def with_galg_bytes(ex, case):
+    """algebraic model with byte-exact scalars: byte strings mapped into F_r are exact linear forms in their bytes"""
+    from . import stubs_galg, stubs_ecdsa
+    with_galg(ex, case)
+    ex.galg_byte_atoms = True
+    stubs_ecdsa.install(ex)
+    ex.stubs[stubs_galg.P + 'mapToFr'] = stubs_galg.map_to_fr_cut(int((case.opts or {}).get('mapToFr_limit', 3)), bool((case.opts or {}).get('force_first_zero')))
+
+def with_galg_all(ex, case):
+    """algebraic model plus the ECDSA / big.Int library models (API sweeps that touch every scheme)"""
+    from . import stubs_ecdsa
+    with_galg(ex, case)
+    stubs_ecdsa.install(ex)
